@@ -6,13 +6,14 @@
 #include "galois/optional.h"
 
 namespace c01 {
-constexpr unsigned NVAL = 4;
+constexpr unsigned NVAL  = 4;  // plain worklists: item values 0..3
+constexpr unsigned NSLOT = 16; // priority worklists: item = bucket * 4 + payload, bucket 0..2 (see C01_obim.cpp)
 
 struct Bag {
-  unsigned cnt[NVAL] = {0, 0, 0, 0}; // symbolic: pending copies of each value
+  unsigned cnt[NSLOT] = {0, 0, 0, 0, 0, 0, 0, 0, 0, 0, 0, 0, 0, 0, 0, 0}; // symbolic: pending copies of each value
   unsigned n         = 0;            // pending items; stays a constant under constant operation kinds (keeps harness loops concrete)
   void add(int v) {
-    ++cnt[v & 3];
+    ++cnt[v & 15];
     ++n;
   }
   bool empty() const { return n == 0; }
@@ -20,14 +21,16 @@ struct Bag {
   void take(int v) {
     VF_CHECKM(n > 0, "pop returned an item although nothing is pending (duplicate or invented item)");
     if (n) --n;
-    VF_CHECKM(v >= 0 && v < (int)NVAL, "pop returned a value that was never pushed (out of the value range)");
-    unsigned c = cnt[v & 3];
+    VF_CHECKM(v >= 0 && v < (int)NSLOT, "pop returned a value that was never pushed (out of the value range)");
+    unsigned c = cnt[v & 15];
     VF_CHECKM(c > 0, "pop returned an item that is not pending (never pushed, or returned twice)");
-    cnt[v & 3] = c ? c - 1 : 0;
+    cnt[v & 15] = c ? c - 1 : 0;
   }
   // n == 0 must agree with the per-value counters
   void check_consistent() const {
-    VF_CHECKM(cnt[0] + cnt[1] + cnt[2] + cnt[3] == n, "per-value counters disagree with the number of pending items");
+    unsigned t = 0;
+    for (unsigned i = 0; i < NSLOT; ++i) t += cnt[i];
+    VF_CHECKM(t == n, "per-value counters disagree with the number of pending items");
   }
 };
 
@@ -123,35 +126,43 @@ inline void configure(unsigned cfg) {
 }
 inline void become_worker(unsigned cfg) { vfenv::enter(cfg == 0 ? 0 : 1); }
 
+// one worklist instance, one kind sequence: constructed by the master thread (thread 0) as for_each_impl does, used by
+// the worker, destroyed by the master
+template <typename WL, typename O, typename KindAt>
+void run_one(unsigned cfg, unsigned len, KindAt kindAt) {
+  vfenv::enter(0);
+  {
+    WL wl;
+    become_worker(cfg);
+    Bag bag;
+    O::start(wl, bag);
+    for (unsigned i = 0; i < len; ++i) {
+      unsigned k = kindAt(i);
+      if (k == 9) break;
+      step<WL, O>(wl, bag, k);
+    }
+    drain<WL, O>(wl, bag);
+    vfenv::enter(0);
+  }
+}
+
 // every kind sequence of NOPS operations: vf_param(base..base+NOPS-1) = kinds, vf_param(base+NOPS) = pool configuration
 template <typename WL, unsigned NOPS, typename O = Ops<WL>>
 void conserve(unsigned base = 0) {
   unsigned cfg = vf_param(base + NOPS);
   configure(cfg);
-  WL wl; // constructed by the master thread (thread 0), as for_each_impl does
-  become_worker(cfg);
-  Bag bag;
-  O::start(wl, bag);
-  for (unsigned i = 0; i < NOPS; ++i) step<WL, O>(wl, bag, vf_param(base + i));
-  drain<WL, O>(wl, bag);
+  run_one<WL, O>(cfg, NOPS, [base](unsigned i) { return vf_param(base + i); });
 }
 
-// a table of longer kind sequences (terminated by 9): vf_param(0) = row, vf_param(1) = pool configuration
+// a table of longer kind sequences (terminated by 9): vf_param(base) = row, vf_param(base+1) = pool configuration;
+// the worklist types of the pack are exercised one after the other in the same environment (one solver query)
 constexpr unsigned SEQLEN = 10;
-template <typename WL, typename O = Ops<WL>>
+template <typename... WLs>
 void conserve_table(const unsigned char (*tab)[SEQLEN], unsigned n, unsigned base = 0) {
   unsigned cfg = vf_param(base + 1);
   configure(cfg);
-  WL wl;
-  become_worker(cfg);
-  Bag bag;
-  O::start(wl, bag);
   const unsigned char* s = tab[vf_param(base) < n ? vf_param(base) : 0];
-  for (unsigned i = 0; i < SEQLEN; ++i) {
-    if (s[i] == 9) break;
-    step<WL, O>(wl, bag, s[i]);
-  }
-  drain<WL, O>(wl, bag);
+  (run_one<WLs, Ops<WLs>>(cfg, SEQLEN, [s](unsigned i) { return (unsigned)s[i]; }), ...);
 }
 
 // kind sequences used by the quick tier (0 push(v), 1 push(range of 2), 2 pop, 3 flush, 9 end); chunk size 2
